@@ -1291,4 +1291,162 @@ theorem cookwareP_ev (hc : Ctx off w Pv ts) (h : GE Pv ts e s) :
         rw [hd] at this; exact this
       · exact Sat.bind (Sat.pure (hrcp _ g8 rfl))
 
+theorem sepToEnd_aux (a b : List Tok) (t : Tok) :
+    ((a ++ t :: b).getLast?.getD t).stop = lastStop t.stop b := by
+  rw [getLast_getD_stop, lastStop_append, lastStop_cons]
+
+/-- the span from a token of a run to the end of the run -/
+theorem RunIn.sepToEnd {o : Nat} {l : List Tok} {i : Nat} {t : Tok} (h : RunIn off w o l)
+    (ht : l[i]? = some t) : SpanOK off w ⟨t.start, (l.getLast?.getD t).stop⟩ := by
+  have hi : i < l.length := getElem?_lt ht
+  have e1 : l = l.take i ++ (t :: l.drop (i + 1)) := by
+    have h1 : l.drop i = t :: l.drop (i + 1) := by
+      rw [List.drop_eq_getElem_cons hi]
+      rw [List.getElem?_eq_getElem hi] at ht
+      simp only [Option.some.injEq] at ht
+      rw [ht]
+    rw [← h1, List.take_append_drop]
+  have e2 : (l.getLast?.getD t).stop = lastStop t.stop (l.drop (i + 1)) := by
+    conv => lhs; rw [e1]
+    exact sepToEnd_aux _ _ _
+  obtain ⟨-, -, hb1, hb2, hr2⟩ := h.split ht
+  rw [e2]
+  refine ⟨hb1, hr2.stop, ?_⟩
+  have := hr2.le
+  have : t.start ≤ t.stop := by simp [Tok.stop]
+  show t.start ≤ lastStop t.stop _
+  omega
+
+theorem recoverPQuantity_ok (hz : Boundary off w 0) : LocQOK off w (recoverPQuantity (α := α)) :=
+  ⟨SpanOK.pos hz, ⟨SpanOK.pos hz, trivial⟩, trivial⟩
+
+/-- `timer`.  `hz`: position 0 is a boundary of the text (the spans of the recovered quantity the
+    parser substitutes for a missing one are the documented `(0, 0)`) -/
+theorem timerP_ev (hc : Ctx off w Pv ts) (hz : Boundary off w 0) (h : GE Pv ts e s) :
+    Sat (timerP (α := α)) s (fun r s' => GE Pv ts e s' ∧ (r.isSome = true → s.cur < s'.cur) ∧
+      CompRet off w ts s.cur s'.cur r) := by
+  unfold timerP
+  refine Sat.bind (currentOffset_sat h.g ?_)
+  refine Sat.bind (Sat.mono (consumeK_ge _ h) ?_)
+  rintro r1 s1 ⟨g1, h1⟩
+  cases r1 with
+  | none => exact Sat.pure ⟨g1, by simp, trivial⟩
+  | some m =>
+    obtain ⟨-, -, c1⟩ := h1
+    refine Sat.bind (Sat.mono (modifiersP_ev g1) ?_)
+    rintro mtoks s2 ⟨g2, c2, hm, hmt⟩
+    have hrm : RunIn off w (offAt ts s1.cur) mtoks := by rw [hmt]; exact hc.wfi.slice c2
+    refine Sat.bind (currentOffset_sat g2.g ?_)
+    refine Sat.bind (Sat.mono (compBody_ev hc g2) ?_)
+    rintro r3 s3 ⟨g3, h3⟩
+    cases r3 with
+    | none => exact Sat.pure ⟨g3, by simp, trivial⟩
+    | some body =>
+      obtain ⟨c3, hname, hq, hclose⟩ := h3
+      refine Sat.bind (currentOffset_sat g3.g ?_)
+      have hrec := recoverPQuantity_ok (α := α) hz
+      have hnt := hname.text
+      try simp -zeta only
+      extract_lets +onlyGivenNames -underBinder jp1
+      have hjp1 : ∀ (r : Unit) (s4 : BP α), GE Pv ts e s4 → s4.cur = s3.cur → Sat (jp1 r) s4
+          (fun r s' => GE Pv ts e s' ∧ (r.isSome = true → s.cur < s'.cur) ∧
+            CompRet off w ts s.cur s'.cur r) := by
+        intro r s4 g4 c4
+        simp -zeta only [jp1]
+        refine Sat.bind (hasExt_sat g4.g ?_)
+        try simp -zeta only
+        extract_lets +onlyGivenNames -underBinder jp2
+        have hjp2 : ∀ (r : Unit) (s5 : BP α), GE Pv ts e s5 → s5.cur = s3.cur → Sat (jp2 r) s5
+            (fun r s' => GE Pv ts e s' ∧ (r.isSome = true → s.cur < s'.cur) ∧
+              CompRet off w ts s.cur s'.cur r) := by
+          intro r s5 g5 c5
+          simp -zeta only [jp2]
+          refine Sat.bind (Sat.mono (checkNoteTimer_ev hc g5) ?_)
+          rintro _ s6 ⟨g6, c6⟩
+          refine Sat.bind (bpText_sat hname.run ?_)
+          refine Sat.bind (Sat.get ?_)
+          try simp -zeta only
+          extract_lets +onlyGivenNames -underBinder cs
+          apply Sat.bind
+          apply Sat.mono (Q := fun r s' => GE Pv ts e s' ∧ s'.cur = s3.cur ∧ OptOK (LocQOK off w) r)
+          · split
+            · rename_i qt hqt
+              refine Sat.bind (Sat.mono (parseQuantity_ev hc (hq qt hqt) g6) ?_)
+              rintro q s7 ⟨g7, c7, hqr⟩
+              dsimp only
+              split
+              · refine Sat.bind (Sat.perrE ?_)
+                exact Sat.pure ⟨g7.err hc (one_label (SpanOK.pos hqr.1.2.1.1.2.1)), (by show s7.cur = s3.cur; omega), hqr.1⟩
+              · exact Sat.pure ⟨g7, by omega, hqr.1⟩
+            · exact Sat.pure ⟨g6, by omega, trivial⟩
+          rintro quantity s7 ⟨g7, c7, hqo⟩
+          refine Sat.bind (hasExt_sat g7.g ?_)
+          try simp -zeta only
+          extract_lets +onlyGivenNames -underBinder jp3
+          have hjp3 : ∀ (r : Unit) (qo : Option (Loc (PQuantity α))) (s8 : BP α), GE Pv ts e s8 →
+              s8.cur = s3.cur → OptOK (LocQOK off w) qo → Sat (jp3 r qo) s8
+              (fun r s' => GE Pv ts e s' ∧ (r.isSome = true → s.cur < s'.cur) ∧
+                CompRet off w ts s.cur s'.cur r) := by
+            intro r qo s8 g8 c8 hqo8
+            simp -zeta only [jp3]
+            try simp -zeta only
+            extract_lets +onlyGivenNames -underBinder nameO jp4
+            have hnO : OptOK (TextOK off w) nameO := by
+              simp only [nameO]
+              split
+              · trivial
+              · exact hnt
+            have hjp4 : ∀ (r : Unit) (qo : Option (Loc (PQuantity α))) (s9 : BP α), GE Pv ts e s9 →
+                s9.cur = s3.cur → OptOK (LocQOK off w) qo → Sat (jp4 r qo) s9
+                (fun r s' => GE Pv ts e s' ∧ (r.isSome = true → s.cur < s'.cur) ∧
+                  CompRet off w ts s.cur s'.cur r) := by
+              intro r qo s9 g9 c9 hqo9
+              simp -zeta only [jp4]
+              refine Sat.pure ⟨g9, fun _ => by omega, ⟨?_, hnO, hqo9⟩, ?_⟩
+              · exact hc.wfi.span (by omega)
+              · intro sp hsp
+                simp only [Ev.srcSpan, Option.some.injEq] at hsp
+                subst hsp
+                exact ⟨Nat.le_refl _, hc.wfi.offAt_mono (by omega)⟩
+            clear_value jp4 nameO
+            split
+            · dsimp only
+              refine Sat.bind (Sat.perrE ?_)
+              refine hjp4 _ _ _ (g8.err hc (one_label ?_)) c8 hrec
+              split
+              · rename_i sp hsp
+                obtain ⟨h1, h2⟩ := hclose sp hsp
+                exact ⟨hc.wfi.offAt _, h1.2.1, h2⟩
+              · exact SpanOK.pos (hc.wfi.offAt _)
+            · exact hjp4 _ _ _ g8 c8 hqo8
+          clear_value jp3
+          split
+          · dsimp only
+            refine Sat.bind (Sat.perrE ?_)
+            refine hjp3 _ _ _ (g7.err hc (one_label ?_)) c7 hrec
+            cases hcl : body.close with
+            | none => exact SpanOK.pos hnt.1.2.1
+            | some sp => exact (hclose sp hcl).1
+          · exact hjp3 _ _ _ g7 c7 hqo
+        clear_value jp2
+        split
+        · split
+          · rename_i i hfi
+            have hlt : i < body.name.length := by
+              rw [List.findIdx?_eq_some_iff_getElem] at hfi
+              exact hfi.1
+            have hget : body.name[i]? = some body.name[i] := List.getElem?_eq_getElem hlt
+            simp only [hget, Option.getD_some]
+            refine Sat.bind (Sat.perrE ?_)
+            exact hjp2 _ _ (g4.err hc (one_label (hname.sepToEnd hget))) c4
+          · exact hjp2 _ _ g4 c4
+        · exact hjp2 _ _ g4 c4
+      clear_value jp1
+      split
+      · rename_i hne
+        have hne' : mtoks ≠ [] := by intro h0; rw [h0] at hne; simp at hne
+        refine Sat.bind (Sat.perrE ?_)
+        exact hjp1 _ _ (g3.err hc (one_label (hrm.tokensSpan hne'))) rfl
+      · exact hjp1 _ _ g3 rfl
+
 end Cook
